@@ -383,6 +383,19 @@ def witness_three(order=(1, 0, 2)):
             "order": [0, 1, 2], "cons": [copy.deepcopy(cs[i]) for i in order]}
 
 
+def witness_stagger():
+    """pad (8x8x4) with y/z position known up front (partial_real_position) and x via [E]; chip (4^3) centred on pad in x AND y by ONE two-axis constraint [C], z by [Cz];
+    probe (2^3) right of chip along x [D], centred in y/z [Dyz].  C resolves its y axis one pass before its x axis when it is listed before E
+    (seeded regression C27_1: a per-call 'resolved something' flag that only reports the last axis)."""
+    cs = [{"k": "pos", "o": 1, "other": 0, "es": [[0, -1, -1, 0, 3]]},
+          {"k": "pos", "o": 2, "other": 1, "es": [[0, 0, 0, 0, 0], [1, 0, 0, 0, 0]]},
+          {"k": "pos", "o": 2, "other": 1, "es": [[2, 0, 0, 0, 0]]},
+          {"k": "pos", "o": 3, "other": 2, "es": [[0, -1, 1, 0, 0]]},
+          {"k": "pos", "o": 3, "other": 2, "es": [[1, 0, 0, 0, 0], [2, 0, 0, 0, 0]]}]
+    return {"D": 1, "N": [20, 20, 20], "shapes": [[["g", 20]] * 3, [["g", 8], ["g", 8], ["g", 4]], [["g", 4]] * 3, [["g", 2]] * 3],
+            "order": [0, 1, 2, 3], "cons": cs, "real_pos": {"1": [None, 0.0, 0.0]}}
+
+
 def witness_single():
     """one object with declared grid shape 4 and grid coordinates (3,9) on every axis."""
     return {"D": 1, "N": [20, 20, 20], "shapes": [[["g", 20]] * 3, [["g", 4]] * 3], "order": [0, 1],
